@@ -1,6 +1,7 @@
 (* C20 -- crashed workers are respawned (decision + watcher loop).  Statements only. *)
 From Coq Require Import NArith List Bool.
 From Verif Require Import Watcher WatcherProofs.
+From Verif Require Import Pidfile PidfileProofs.
 Import ListNotations.
 Open Scope N_scope.
 
@@ -37,3 +38,112 @@ Theorem C20_watcher_loop : forall pre rest, Forall abnormal pre ->
        repeat ASpawn (length pre) ++ [ASpawn; AReturn true].
 Proof. exact watcher_loop. Qed.
 Print Assumptions C20_watcher_loop.
+
+(* ---- the pid file (model: Pidfile.v; mx = limits.MaxPidfileRetries, any value) ---- *)
+
+(* For every number n of daemons racing for one pid file, every interleaving of their system calls and
+   deaths at any point: a process that has passed the same-file check and has not begun Remove holds
+   the lock on the file the path names; at most one process holds that lock; hence at most one process
+   at a time is past CreatePidFile. *)
+Theorem C20_lock_exclusive : forall mx n tr s, steps mx (init n) tr s ->
+  (forall p, owner s p -> holds_path_lock s p) /\
+  (forall p q, holds_path_lock s p -> holds_path_lock s q -> p = q) /\
+  (forall p q, owner s p -> owner s q -> p = q).
+Proof. exact lock_exclusive. Qed.
+Print Assumptions C20_lock_exclusive.
+
+(* Once the owner has written it, the file the path names holds the owner's pid. *)
+Theorem C20_pidfile_names_owner : forall mx n tr s p i, steps mx (init n) tr s ->
+  getp s p = Some (Owner i SWritten) -> path s = Some i /\ content s i = Some p.
+Proof. exact pidfile_names_owner. Qed.
+Print Assumptions C20_pidfile_names_owner.
+
+(* A process that has ended -- by exit or killed at any point of the protocol -- holds no lock. *)
+Theorem C20_lock_released : forall mx n tr s p o, steps mx (init n) tr s ->
+  getp s p = Some (Done o) -> forall i, ~ In (i, p) (locks s).
+Proof. exact ended_holds_nothing. Qed.
+Print Assumptions C20_lock_released.
+
+(* Whenever nobody holds the lock on the file the path names (or the path names nothing), a process
+   at the head of the retry loop that runs undisturbed gets past the same-file check at once and ends
+   as the owner, with its pid in the file. *)
+Theorem C20_successor_runs : forall mx n tr s p k, steps mx (init n) tr s ->
+  path_lock_free s -> getp s p = Some (Start k) -> (k < mx)%N ->
+  exists s' i, steps mx s (solo p) s' /\ getp s' p = Some (Owner i SWritten) /\
+               path s' = Some i /\ content s' i = Some p /\ In (i, p) (locks s') /\
+               (forall j, path s = Some j -> i = j) /\
+               (forall q, q <> p -> getp s' q = getp s q).
+Proof. exact solo_succeeds. Qed.
+Print Assumptions C20_successor_runs.
+
+(* The holder dies at any stage after the same-file check: the next process to run takes the same
+   file over. *)
+Theorem C20_successor_after_death : forall mx n tr s h i st s1 p k, steps mx (init n) tr s ->
+  getp s h = Some (Owner i st) -> step mx s (LDie h) s1 -> getp s1 p = Some (Start k) -> (k < mx)%N ->
+  exists s2, steps mx s1 (solo p) s2 /\ getp s2 p = Some (Owner i SWritten) /\
+             path s2 = Some i /\ content s2 i = Some p /\ In (i, p) (locks s2).
+Proof. exact successor_after_death. Qed.
+Print Assumptions C20_successor_after_death.
+
+(* The holder exits through Remove (unlink, then close): from the unlink on, even before the close,
+   the next process makes a new file and owns it; until the close the old holder still holds its lock
+   on the unlinked file. *)
+Theorem C20_successor_after_unlink : forall mx n tr s h i st s1 p k, steps mx (init n) tr s ->
+  getp s h = Some (Owner i st) -> step mx s (LUnlink h) s1 -> getp s1 p = Some (Start k) -> (k < mx)%N -> p <> h ->
+  exists s2 j, steps mx s1 (solo p) s2 /\ getp s2 p = Some (Owner j SWritten) /\
+               path s2 = Some j /\ content s2 j = Some p /\ In (j, p) (locks s2) /\
+               j <> i /\ getp s2 h = Some (Unlinked i) /\ In (i, h) (locks s2).
+Proof. exact successor_after_unlink. Qed.
+Print Assumptions C20_successor_after_unlink.
+
+(* With contenders: a process can end with ErrRetryLimit only after mx DIFFERENT other processes have
+   each become owner and unlinked the path; with no more than mx daemons in all it never happens.
+   (ex_retry_limit in PidfileProofs.v: with mx + 1 = 11 daemons it does.) *)
+Theorem C20_retry_limit_needs_unlinks : forall mx n tr s p, steps mx (init n) tr s ->
+  getp s p = Some (Done ORetryLimit) ->
+  (mx <= N.of_nat (length (unl s)))%N /\ NoDup (unl s) /\ ~ In p (unl s) /\
+  (forall q, In q (unl s) -> (q < n)%nat) /\ (mx < N.of_nat n)%N.
+Proof. exact retry_limit_needs_unlinks. Qed.
+Print Assumptions C20_retry_limit_needs_unlinks.
+
+(* The over-literal reading "never two processes past the same-file check that hold a pid-file lock"
+   FAILS between unlink and close in Remove (witness: 0 runs, unlinks; 1 runs; 0 has not closed yet) ... *)
+Theorem C20_one_locker_refuted :
+  exists mx n tr s p q i j,
+    steps mx (init n) tr s /\ p <> q /\ passed_and_locked s p /\ passed_and_locked s q /\
+    In (i, p) (locks s) /\ In (j, q) (locks s).
+Proof. exact one_locker_refuted. Qed.
+Print Assumptions C20_one_locker_refuted.
+
+(* ... and holds outside exactly that window; inside it the exiting process holds only the lock on the
+   file it has unlinked, which the path does not name. *)
+Theorem C20_one_locker_partial : forall mx n tr s p q, steps mx (init n) tr s ->
+  passed_and_locked s p -> passed_and_locked s q ->
+  p = q \/ in_remove_window s p \/ in_remove_window s q.
+Proof. exact one_locker_partial. Qed.
+Print Assumptions C20_one_locker_partial.
+
+Theorem C20_remove_window_harmless : forall mx n tr s p i, steps mx (init n) tr s ->
+  getp s p = Some (Unlinked i) ->
+  path s <> Some i /\ In (i, p) (locks s) /\ (forall j, In (j, p) (locks s) -> j = i) /\ ~ holds_path_lock s p.
+Proof. exact remove_window_harmless. Qed.
+Print Assumptions C20_remove_window_harmless.
+
+(* The relation and its executable twin agree (the correspondence replays observed histories with exec). *)
+Theorem C20_pidfile_exec_agrees : forall mx s l s', step mx s l s' <-> exec mx s l = Some s'.
+Proof. exact step_iff_exec. Qed.
+Print Assumptions C20_pidfile_exec_agrees.
+
+(* At a settled point (every process not started, up, or gone) either a daemon is up or nobody holds
+   the lock on the file the path names, so that C20_successor_runs applies to the next one started. *)
+Theorem C20_settled_successor : forall mx n tr s, steps mx (init n) tr s -> settled s ->
+  (exists p, owner s p) \/ path_lock_free s.
+Proof. exact settled_owner_or_free. Qed.
+Print Assumptions C20_settled_successor.
+
+(* Monitors vs model: every observed history that the correspondence accepts (a run of the model whose
+   per-call kernel snapshots agree) satisfies the three safety monitors evaluated on the real daemons. *)
+Theorem C20_pidfile_monitors_sound : forall mx n h, accepts mx n h = true ->
+  mon_exclusive h = true /\ mon_content h = true /\ mon_released h = true.
+Proof. exact accepted_safety_monitors. Qed.
+Print Assumptions C20_pidfile_monitors_sound.
